@@ -44,3 +44,35 @@ def solutions (I : Inst) : List (List Bool × List Nat) :=
 def optCost (I : Inst) : Option Nat := minOver (solutions I) (fun s => totalCost I s.1 s.2)
 
 end WhVerif.C01
+
+/-! ## the fully flattened objective: explicit allele assignment per column
+
+`optCost3` is the minimum over ALL triples (bipartition, transmission vector, allele assignment per column) —
+literally the property's "over all read bipartitions, transmission vectors and admissible allele assignments".
+`Lemmas/C01Flat.lean` proves `optCost3 = optCost`. -/
+namespace WhVerif.C01
+open WhVerif.Cost
+
+/-- cost of column `c` under the explicit allele assignment `α` (bit p = allele of partition p);
+`none` if `α` is not admissible for the genotype constraints -/
+def colCostWith (I : Inst) (c : Nat) (bs : List Bool) (t α : Nat) : Option Nat :=
+  (assignCost I c t α).map (fun g => g + viewCost I c t α bs)
+
+def colTotalWith (I : Inst) (β : List Bool) (τ αs : List Nat) (c : Nat) : Option Nat :=
+  cadd (colCostWith I c (restrict β (I.activeAt c)) (τ.getD c 0) (αs.getD c 0))
+    (some (popcount (τ.getD c 0 ^^^ τ.getD (c - 1) 0) * I.recombAt c))
+
+def costUpToWith (I : Inst) (β : List Bool) (τ αs : List Nat) : Nat → Option Nat
+  | 0 => colTotalWith I β τ αs 0
+  | c + 1 => cadd (costUpToWith I β τ αs c) (colTotalWith I β τ αs (c + 1))
+
+/-- the (Ped)MEC objective of a complete solution `(β, τ, αs)` -/
+def solutionCost (I : Inst) (β : List Bool) (τ αs : List Nat) : Option Nat :=
+  if I.ncols = 0 then some 0 else costUpToWith I β τ αs (I.ncols - 1)
+
+def solutions3 (I : Inst) : List ((List Bool × List Nat) × List Nat) :=
+  (solutions I).flatMap (fun s => (allLists (2 ^ I.npart) I.ncols).map (fun αs => (s, αs)))
+
+def optCost3 (I : Inst) : Option Nat := minOver (solutions3 I) (fun s => solutionCost I s.1.1 s.1.2 s.2)
+
+end WhVerif.C01
